@@ -258,3 +258,58 @@ EXEC['exec_function'] = dict(spec="        requires self matches ExprAST::Functi
         proof { assert(exprs@.take(exprs@.len() as int) =~= exprs@); }""")])
 EXEC['exec_unary']['proof']=[("vx_call1(", "        proof { match self { ExprAST::Unary(_, b) => { assert(**b == *rhs); assert(decreases_to!(self => b)); }, _ => {} } }", 'before')]
 EXEC['exec_binary']['proof']=[("match InfixOpManager::new().get_op_type(&op)? {", "        proof { broadcast use axiom_same_entry; match self { ExprAST::Binary(_, b1, b2) => { assert(**b1 == *lhs && **b2 == *rhs); assert(decreases_to!(self => b1)); assert(decreases_to!(self => b2)); }, _ => {} } }", 'before')]
+
+# ---- exec_map: pairs, key before value
+GHOST += r'''
+pub open spec fn pairs_cloned<'a>(a: Vec<(ExprAST<'a>, ExprAST<'a>)>, b: Vec<(ExprAST<'a>, ExprAST<'a>)>) -> bool {
+    a.len() == b.len() && forall|i: int| 0 <= i < a.len() ==> cloned(#[trigger] a[i], b[i])
+}
+// trusted (rule 6): the built-in Clone of a pair of ASTs is structural
+pub broadcast axiom fn axiom_pair_clone<'a>(a: (ExprAST<'a>, ExprAST<'a>), b: (ExprAST<'a>, ExprAST<'a>)) ensures #[trigger] cloned(a, b) ==> a == b;
+pub proof fn lemma_pairs_step(items: Seq<(ExprAST, ExprAST)>, k: int, s: St)
+    requires 0 <= k < items.len(),
+    ensures ({
+        let (pv, ps) = sem_pairs(items.take(k), s);
+        let (kv, s1) = sem(items[k].0, ps);
+        let (vl, s2) = sem(items[k].1, s1);
+        &&& (pv is Some && kv is Some ==> sem_pairs(items.take(k + 1), s) == (match vl { Some(v) => Some(pv.unwrap().push((kv.unwrap(), v))), None => None::<Seq<(SV, SV)>> }, s2))
+        &&& (pv is Some && kv is None ==> sem_pairs(items, s) == (None::<Seq<(SV, SV)>>, s1))
+        &&& (pv is Some && kv is Some && vl is None ==> sem_pairs(items, s) == (None::<Seq<(SV, SV)>>, s2))
+    }),
+{
+    assert(items.take(k + 1).drop_last() =~= items.take(k));
+    assert(items.take(k + 1).last() == items[k]);
+    let (pv, ps) = sem_pairs(items.take(k), s);
+    if pv is Some {
+        let (kv, s1) = sem(items[k].0, ps);
+        if kv is None || sem(items[k].1, s1).0 is None { lemma_pairs_err_prefix(items, k + 1, s); }
+    }
+}
+pub proof fn lemma_pairs_err_prefix(items: Seq<(ExprAST, ExprAST)>, k: int, s: St)
+    requires 0 <= k <= items.len(), sem_pairs(items.take(k), s).0 is None,
+    ensures sem_pairs(items, s) == sem_pairs(items.take(k), s),
+    decreases items.len() - k
+{
+    if k < items.len() { assert(items.take(k + 1).drop_last() =~= items.take(k)); lemma_pairs_err_prefix(items, k + 1, s); }
+    else { assert(items.take(k) =~= items); }
+}
+pub proof fn lemma_vv_pairs_push(s: Seq<(Value, Value)>, v: (Value, Value)) ensures vv_pairs(s.push(v)) == vv_pairs(s).push((vv(v.0), vv(v.1)))
+{ assert(s.push(v).drop_last() =~= s); }
+'''
+EXEC['exec_map'] = dict(spec="        requires self matches ExprAST::Map(items) && pairs_cloned(*items, m),\n"+AG+"\n        decreases self, 0int,",
+    rewrite=[("        for (k, v) in m {\n            ans.push((k.exec(ctx)?, v.exec(ctx)?));\n        }","""        let ghost items = match self { ExprAST::Map(items) => *items, _ => arbitrary() };
+        proof { assert forall|i: int| 0 <= i < items.len() implies items@[i] == m@[i] by { broadcast use axiom_pair_clone; assert(cloned(items[i], m[i])); } assert(items@ =~= m@); }
+        for kv in it: m
+            invariant *self == ExprAST::Map(items), items@ == m@,
+                sem_pairs(m@.take(it.index@ as int), old(ctx)@) == (Some(vv_pairs(ans@)), ctx@),
+        {
+            proof {
+                let i = it.index@ as int;
+                lemma_pairs_step(m@, i, old(ctx)@);
+                assert forall|p: (Value, Value)| vv_pairs(ans@.push(p)) == vv_pairs(ans@).push((vv(p.0), vv(p.1))) by { lemma_vv_pairs_push(ans@, p); }
+                match self { ExprAST::Map(it2) => { vstd::std_specs::vec::axiom_vec_index_decreases(*it2, i); assert(kv == it2@[i]); }, _ => {} }
+            }
+            let (k, v) = kv;
+            ans.push((k.exec(ctx)?, v.exec(ctx)?));
+        }
+        proof { assert(m@.take(m@.len() as int) =~= m@); }""")])
